@@ -142,9 +142,12 @@ def backend_key_req(kind):
     return 'hashable'
 
 
-def open_backend(kind, root, name='A', cached=None):
-    """create (or re-open) the cache object handed to the decorator"""
+def open_backend(kind, root, name='A', cached=None, relative=False):
+    """create (or re-open) the cache object handed to the decorator.
+    relative: directory archives are named by a RELATIVE path (the caller has made root the working directory)"""
     import klepto.archives as ka
+    if relative and kind.split('_', 1)[-1].startswith('dir_'):
+        root = ''             # os.path.join('', 'A_d') == 'A_d'
     if kind == 'none':
         return None
     if kind == 'plain':
@@ -459,8 +462,14 @@ class Session(object):
         if fn is None and cfg.get('raising'):
             self.fn.set_raising(cfg, cfg['raising'])
         if cacheobj == 'open':
+            rel = bool(cfg.get('relpath')) and cfg['backend'].split('_', 1)[-1].startswith('dir_') and not cfg.get('attach_later')
+            if rel:
+                # the archive is named relative to the working directory of the moment; 'existing': the directory is already there (a later session)
+                if cfg['relpath'] == 'existing':
+                    os.makedirs(os.path.join(root, name + {'dir_dill': '_d', 'dir_fast': '_f', 'dir_z': '_z', 'dir_json': '_j', 'dir_src': '_s'}[cfg['backend'].split('_', 1)[-1]]), exist_ok=True)
+                os.chdir(root)
             # 'attach_later': the function is decorated WITHOUT an archive; a history op attaches one through the public f.archive(obj)
-            cacheobj = None if cfg.get('attach_later') else open_backend(cfg['backend'], root, name)
+            cacheobj = None if cfg.get('attach_later') else open_backend(cfg['backend'], root, name, relative=rel)
         self.cacheobj = cacheobj
         self.dec = build_decorator(cfg, cacheobj)
         self.f = self.dec(self.fn.f)
@@ -550,6 +559,11 @@ def apply_op(sess, op, trace, observe=True, prev=None):
             if sess.cfg.get('attach_later') and not getattr(sess, 'attached', False):
                 f.archive(open_backend(sess.cfg['backend'], sess.root, 'A', cached=False))
                 sess.attached = True
+        elif kind == 'chdir':
+            # the program moves to another working directory (or back): an attached archive stays where it is
+            target = sess.root if not op[1] else os.path.join(sess.root, 'elsewhere')
+            os.makedirs(target, exist_ok=True)
+            os.chdir(target)
         elif kind == 'arch_query':
             st.result = f.archived()
         elif kind == 'cache_get':
@@ -605,6 +619,7 @@ def run_history(case, root=None, ops=None, fork_check=None):
         own = Scratch()
         root = own.path
     sessions = []
+    cwd0 = os.getcwd()
     try:
         try:
             sess = Session(cfg, root)
@@ -654,6 +669,7 @@ def run_history(case, root=None, ops=None, fork_check=None):
             _close(x.cache)
         return tr
     finally:
+        os.chdir(cwd0)
         if own is not None:
             shutil.rmtree(own.path, ignore_errors=True)
 
